@@ -325,6 +325,14 @@ func (g *G) prog(guard bool) *Prog {
 		// reach into a (permanent) binding and change it below the top level
 		p.Ops = append(p.Ops, Op{Kind: "poke", K: g.pick(permKeys)})
 	}
+	if !guard && g.chance(0.1) {
+		// emit (part of) the bindings, then change that part in place: what was emitted is what it was then
+		k := g.key()
+		p.Ops = append(p.Ops, Op{Kind: "emitb", K: k}, Op{Kind: "poke", K: k})
+		if g.chance(0.5) {
+			p.Ops = append(p.Ops, Op{Kind: "emitb", K: k})
+		}
+	}
 	for i := 0; i < nops; i++ {
 		switch k := g.intn(14); {
 		case k == 13:
